@@ -268,6 +268,10 @@ class ModelProcessor(Processor):
             )
         else:
             raise ValueError("No compiler defined.")
+        if tlist is None and coeffs is None:
+            # The circuit drives no pulse (it is empty or consists of
+            # global phase gates only): nothing to save.
+            tlist, coeffs = {}, {}
         # Save compiler pulses
         self.set_coeffs(coeffs)
         self.set_tlist(tlist)
